@@ -88,7 +88,11 @@ class ListProxy(list, ContainerValueMixin):
         item: Union[Any, Iterable],
     ) -> None:
         if isinstance(index, slice):
-            super().__setitem__(index, [self._validate(i) for i in item])
+            start, _, step = index.indices(len(self))
+            super().__setitem__(
+                index,
+                [self._validate(i, start + n * step) for n, i in enumerate(item)],
+            )
         else:
             position = operator.index(index)
             if position < 0:
